@@ -40,8 +40,8 @@ def run_gov(ctx, pid, mode, gen_cfg, nv, depth, cap, mc_cfg=None, min_edges=300)
     traces = [o["trace"] for o in out if "trace" in o]
     if summ["edges"] != len(edges):
         ctx.fail("driver replayed %d of %d edges" % (summ["edges"], len(edges)))
-    if summ["matched"] < len(edges) // 10:
-        ctx.fail("only %d of %d edges conform: harness or model broken" % (summ["matched"], len(edges)))
+    if summ["matched"] == 0:
+        ctx.fail("none of %d edges conform: harness or model broken" % len(edges))
     ctx.note("edges %(edges)d matched %(matched)d deviations %(deviations)d unreachable-after-deviation %(unreachable)d "
              "off-model steps %(offmodel)d (cap hit: %(cap_hit)s)" % summ)
     ctx.sample({"edge": {k: edges[len(edges) // 2][k] for k in ("h", "a", "r")}})
@@ -79,6 +79,9 @@ def run_gov(ctx, pid, mode, gen_cfg, nv, depth, cap, mc_cfg=None, min_edges=300)
                     [_short(s["a"]) + " -> " + s["r"] for s in traces[0]["steps"]]})
     ctx.note("recorded real executions judged: %d (violating %s: %d, only other governance properties: %d, drift: %d)"
              % (len(traces), pid, own, other, drift))
+    if summ["matched"] < len(edges) // 10 and own == 0:
+        # almost nothing conforms and the monitor of this property has nothing to say: no basis for "held"
+        ctx.fail("only %d of %d edges conform and no %s clause is violated: no verdict" % (summ["matched"], len(edges), pid))
     ctx.cov["evaluations"] = summ["edges"] + summ["offmodel"]
     ctx.cov["distinct_nontrivial"] = summ["distinct"]
     return summ, altsp
